@@ -58,6 +58,10 @@ func buildEnvReplacer() *strings.Replacer {
 	pairs := make([]string, 0, len(env)*4)
 	for _, entry := range env {
 		parts := strings.SplitN(entry, "=", 2)
+		if len(parts) != 2 {
+			// Malformed entry without "=", nothing to substitute.
+			continue
+		}
 		key := parts[0]
 		value := parts[1]
 
